@@ -325,7 +325,8 @@ def run_check(mod, prop, tier, seed, args):
         "repo": os.environ.get("VERIF_REPO"),
         "jobs": jobs,
     }
-    if level == "model_checking" or total.states:
+    if total.states and total.transitions:
+        cov["state_counting"] = getattr(mod, "STATE_COUNTING", "states = distinct canonical states of the real object reached by the search; transitions = real method calls between them; traces = witness histories replayed on fresh objects")
         cov["states"] = total.states
         cov["transitions"] = total.transitions
         cov["traces_validated_against_impl"] = total.traces
